@@ -86,6 +86,22 @@ Inductive result :=
 | RErrShutdown                                        (* errors accumulated by shutdown() *)
 | RReload (r : result).                               (* "failed to setup configuration components: r" *)
 
+(* the numeric class of Run's result as the harness reports it (error-message classes; +10 when
+   wrapped by "failed to setup configuration components") *)
+Fixpoint result_code (r : result) : nat :=
+  match r with
+  | RNil => 1 | RErrGet => 2 | RErrInvalid => 3 | RErrBuild => 4 | RErrStart => 5
+  | RErrRetire => 6 | RErrShutdown => 7 | RReload r' => 10 + result_code r'
+  end.
+
+(* the results with which a run that was NOT stopped returns *)
+Definition fail_result (r : result) : bool :=
+  match r with
+  | RErrGet | RErrInvalid | RErrBuild | RErrStart | RErrRetire => true
+  | RReload (RErrGet | RErrInvalid | RErrBuild | RErrStart) => true
+  | _ => false
+  end.
+
 (* ---- actions: what the run does to the outside world, in order ------------------------------ *)
 Inductive action :=
 | ASetState (p : phase)
@@ -97,7 +113,7 @@ Inductive action :=
 | AShutdown (g c : nat) (ok : bool)      (* component Shutdown returned *)
 | AProvShutdown (ctx_live : bool)        (* provider.Shutdown; was the context it got still live? *)
 | ACloseChan                             (* close(shutdownChan) succeeded *)
-| ASenderPanic                           (* a provider goroutine blocked sending a notification panicked: the resolver closed the watcher channel under it *)
+| ASenderPanic                           (* pre-repair only (Old.v): a provider goroutine blocked sending a notification panicked; never produced by run_step *)
 | ARecovered                             (* close of the already closed channel panicked; Shutdown()'s deferred recover swallowed it *)
 | AReturn (r : result).
 
@@ -114,7 +130,7 @@ Inductive pc :=
 | PSelect                     (* blocked in / about to enter the select, state Running *)
 | PReload                     (* reloadConfiguration: state Closing, retiring service not yet shut down *)
 | PFinal (bg : bool)          (* shutdown(): state Closing; bg = called with context.Background() *)
-| PStuck                      (* blocked for ever on the status reporter's mutex (see svc_blocked) *)
+| PStuck                      (* pre-repair only (Old.v): blocked for ever on the status reporter's mutex; never reached by run_step *)
 | PDone (k : done_kind).      (* Run has returned *)
 
 Inductive branch := BrWatch | BrAsync | BrSignal | BrShutdownChan | BrCtx.
@@ -195,11 +211,14 @@ Definition sender_eqb (a b : sender) : bool :=
   | _, _ => false
   end.
 
-(* service.Shutdown / StartAll of generation g report component statuses through the reporter of
-   generation g; if a component of g is blocked on asyncErrorChannel inside that reporter's
-   critical section, the first report blocks on the mutex — and since only Run receives from
-   the channel, for ever. *)
-Definition svc_blocked (g : nat) (s : cstate) : bool := existsb (sender_eqb (SndFatal g)) (st_async s).
+(* Collector.shutdownService: while service.Shutdown runs, a goroutine of the collector keeps
+   receiving from asyncErrorChannel and discards what it gets (the service is going away): every
+   sender blocked there — plain, or a component holding its status reporter's mutex — is released
+   before service.Shutdown needs that mutex.  (Before commit 98f2ce3d0 nobody received and the
+   shutdown deadlocked: Old.v.) *)
+Definition drain (s : cstate) : cstate :=
+  mkState (st_phase s) (st_pc s) (st_live s) (st_gen s) (st_open s) (st_chan_closed s) (st_closers s)
+          (st_sigs s) (st_watch s) [] (st_ctx_done s) (st_prov_shut s).
 
 (* setupConfigurationComponents after setCollectorState(StateStarting): actions, and the error
    class if it fails.  [open] = generation whose retrieval the resolver still holds open. *)
@@ -307,12 +326,13 @@ Definition take (s : cstate) (b : branch) : cstate * list action :=
   | BrCtx => if st_ctx_done s then to_final s true else (s, [])
   end.
 
-(* Resolver.Shutdown begins with close(mr.watcher): the value sitting in the 1-slot buffer stays
-   there unread, but every provider goroutine still BLOCKED in onChange behind it (the second and
-   later pending notifications) panics with "send on closed channel" — in the provider's own
-   goroutine, where nothing recovers it.  Then closeIfNeeded closes the open retrieval. *)
+(* Resolver.Shutdown: close(done) releases every provider goroutine still blocked in onChange behind
+   the buffered notification (their notifications are dropped: nobody is going to re-fetch), then —
+   under the exclusive lock, so with no sender inside onChange — close(mr.watcher); then
+   closeIfNeeded closes the open retrieval.  (Before commit bc929f066 the blocked senders panicked
+   with "send on closed channel": Old.v; the action ASenderPanic is kept in the type for that
+   documentation and for the theorem that the current step function never produces it.) *)
 Definition final_prefix (s : cstate) : list action :=
-  repeat ASenderPanic (pred (length (st_watch s))) ++
   match st_open s with Some h => [AClose h] | None => [] end.
 
 Definition live_gen (s : cstate) : nat := match st_live s with Some g => g | None => 0 end.
@@ -329,29 +349,28 @@ Definition run_step (o : oracle) (s : cstate) (b : branch) : cstate * list actio
       match err with
       | None => (set_pc (set_live (set_phase s1 Running) (Some g)) PSelect, acts ++ [ASetState Running])
       | Some e =>
+          (* a failed Start is cleaned up through shutdownService: pending async senders are drained *)
+          let s2 := match e with RErrStart => drain s1 | _ => s1 end in
           if initial
-          then (set_pc (set_phase s1 Closed) (PDone DInitFail), acts ++ [ASetState Closed; AReturn e])
-          else (set_pc s1 (PDone DReloadFail), acts ++ [AReturn (RReload e)])
+          then (set_pc (set_phase s2 Closed) (PDone DInitFail), acts ++ [ASetState Closed; AReturn e])
+          else (set_pc s2 (PDone DReloadFail), acts ++ [AReturn (RReload e)])
       end
   | PSelect => take s b
   | PReload =>
       let g := live_gen s in
-      if svc_blocked g s then (set_pc s PStuck, [ANotReady g])
-      else
-        let '(acts, ok) := svc_shutdown g (cfg_of o g) in
-        if ok
-        then (set_pc (set_live (set_phase s Starting) None) (PSetup false), acts ++ [ASetState Starting])
-        else (set_pc (set_live s None) (PDone DRetireFail), acts ++ [AReturn RErrRetire])
+      let s0 := drain s in
+      let '(acts, ok) := svc_shutdown g (cfg_of o g) in
+      if ok
+      then (set_pc (set_live (set_phase s0 Starting) None) (PSetup false), acts ++ [ASetState Starting])
+      else (set_pc (set_live s0 None) (PDone DRetireFail), acts ++ [AReturn RErrRetire])
   | PFinal bg =>
       let g := live_gen s in
       let pa := final_prefix s ++ [AProvShutdown (bg || negb (st_ctx_done s))] in
-      let s1 := set_watch (set_prov s (S (st_prov_shut s)) None) (firstn 1 (st_watch s)) in
-      if svc_blocked g s then (set_pc s1 PStuck, pa ++ [ANotReady g])
-      else
-        let '(acts, ok) := svc_shutdown g (cfg_of o g) in
-        let r := if ok && negb (prov_shut_fails o) then RNil else RErrShutdown in
-        (set_pc (set_live (set_phase s1 Closed) None) (PDone DStopped),
-         pa ++ acts ++ [ASetState Closed; AReturn r])
+      let s1 := set_watch (set_prov (drain s) (S (st_prov_shut s)) None) (firstn 1 (st_watch s)) in
+      let '(acts, ok) := svc_shutdown g (cfg_of o g) in
+      let r := if ok && negb (prov_shut_fails o) then RNil else RErrShutdown in
+      (set_pc (set_live (set_phase s1 Closed) None) (PDone DStopped),
+       pa ++ acts ++ [ASetState Closed; AReturn r])
   | PStuck => (s, [])
   | PDone _ => (s, [])
   end.
